@@ -30,7 +30,7 @@ import (
 
 // Case is one replayable case: one file and the passwords tried on it.
 type Case struct {
-	Space   string   `json:"space"`   // "passwords" | "permissions" | "long-passwords" | "lengths" | "aliasing" | "containers"
+	Space   string   `json:"space"`   // "passwords" | "permissions" | "long-passwords" | "lengths" | "aliasing" | "containers" | "typed-streams" | "options-reuse"
 	Version string   `json:"version"` // "1.4"
 	User    string   `json:"user"`
 	Owner   string   `json:"owner"`
@@ -55,6 +55,22 @@ type Case struct {
 	ContKind string `json:"container_kind,omitempty"`      // array | dict
 	ContFill string `json:"container_fill,omitempty"`      // sparse | dense
 	ContTop  int    `json:"container_width_top,omitempty"` // largest power of two of the width family
+
+	// space "typed-streams" only: one stream per (Type, Subtype, filter, length, referenced-from) of the alphabets of typed.go
+	TypedLens []int `json:"typed_stream_lengths,omitempty"`
+
+	// space "options-reuse" only: ONE WriterOptions value used for len(Seq) documents in a row (reuse.go)
+	Seq        []Step `json:"reuse_sequence,omitempty"`
+	ReuseStyle string `json:"reuse_style,omitempty"` // how the caller carries the options value to the next document (reuseStyles)
+}
+
+// Step is one document of an options-reuse sequence: what the caller wants
+// the options to say for this document.
+type Step struct {
+	User  string `json:"user"`
+	Owner string `json:"owner"`
+	Perm  int    `json:"perm"`
+	Meta  string `json:"meta"`
 }
 
 type failure struct {
@@ -215,6 +231,13 @@ func write(g *graph, v pdf.Version, user, owner string, perm pdf.Perm, mode stri
 		DocumentMetadata: ms,
 		HumanReadable:    human,
 	}
+	return writeWith(g, v, opt, ms)
+}
+
+// writeWith writes the fixed graph with the options value given (a fresh one
+// in every space but "options-reuse").  ms is what the caller put into
+// opt.DocumentMetadata.
+func writeWith(g *graph, v pdf.Version, opt *pdf.WriterOptions, ms *pdf.MetadataStream) (wr *written, stage string, err error) {
 	buf := &bytes.Buffer{}
 	w, err := pdf.NewWriter(buf, v, opt)
 	if err != nil {
@@ -423,17 +446,31 @@ func (rn *runner) checkFile(c *Case) []failure {
 
 	r.Eval(1)
 	wr, stage, err := write(g, v, c.User, c.Owner, perm, c.Meta, c.Human)
+	return rn.judge(c, wr, stage, err)
+}
+
+// judge opens the file written for c (wr, or the Writer's refusal stage/err)
+// with every try and decides every open from c.User, c.Owner, c.Perm and
+// c.Meta alone.
+func (rn *runner) judge(c *Case, wr *written, stage string, err error) []failure {
+	r := rn.r
+	g := rn.g
+	perm := pdf.Perm(c.Perm)
+	files := "files_"
+	if c.Space == "options-reuse" {
+		files = "reuse_documents_"
+	}
 	if err != nil {
 		if stage == "options" {
 			// not accepted by the Writer: outside the statement
 			var ve *pdf.VersionError
 			switch {
 			case errors.As(err, &ve):
-				r.Count("files_rejected_version: "+ve.Operation, 1)
+				r.Count(files+"rejected_version: "+ve.Operation, 1)
 			case c.User == "" && c.Owner == "":
-				r.Count("files_rejected_other", 1)
+				r.Count(files+"rejected_other", 1)
 			default:
-				r.Count("files_rejected_password", 1)
+				r.Count(files+"rejected_password", 1)
 				r.Outcome("writer:password-rejected")
 			}
 			return nil
@@ -443,12 +480,12 @@ func (rn *runner) checkFile(c *Case) []failure {
 			return nil
 		}
 		// The Writer accepted the passwords but cannot write the fixed graph.
-		r.Count("files_rejected_write_error_"+stage, 1)
+		r.Count(files+"rejected_write_error_"+stage, 1)
 		r.Outcome("writer:accepted-options-but-write-error")
 		return nil
 	}
 	if wr.R == 0 {
-		r.Count("files_unencrypted", 1)
+		r.Count(files+"unencrypted", 1)
 		return nil
 	}
 	c.R = wr.R
@@ -460,7 +497,7 @@ func (rn *runner) checkFile(c *Case) []failure {
 	if cipher == "" {
 		cipher = "RC4"
 	}
-	r.Count(fmt.Sprintf("files_encrypted R%d V%d %s Length=%d", wr.R, wr.V, cipher, wr.length), 1)
+	r.Count(fmt.Sprintf("%sencrypted R%d V%d %s Length=%d", files, wr.R, wr.V, cipher, wr.length), 1)
 
 	pu := prepare(c.User, wr.R)
 	effOwner := c.Owner
@@ -677,6 +714,10 @@ func (rn *runner) one(c Case) {
 		fs = rn.checkAliasing(&c)
 	case "containers":
 		fs = rn.checkContainers(&c)
+	case "typed-streams":
+		fs = rn.checkTyped(&c)
+	case "options-reuse":
+		fs = rn.checkReuse(&c)
 	default:
 		fs = rn.checkFile(&c)
 	}
@@ -724,7 +765,7 @@ func Run(tier string) int {
 	}
 	r := ev.New("C09", tier, "exploration", budget)
 	rn := &runner{r: r, g: theGraph()}
-	r.Rule("a case is one file (version, user password, owner password, permissions, metadata mode, HumanReadable) written by the Writer and one password it is opened with by the Reader; in the length space a case is one (cipher, write piece size, password role, length, read buffer size) stream read or (cipher, role, length) string read; in the aliasing space a case is one (cipher, HumanReadable, value kind, string length, placement of the occurrences, password role) open with all objects read back; in the container space a case is one (cipher, HumanReadable, wide kind, fill, password role, width, outer wrapping, inner wrapping, write route) object read; evaluations count writes, opens and, in the length and container spaces, stream, string and object reads; distinct = the length-space, aliasing-space and container-space cases, plus distinct (version, metadata mode, permissions, HumanReadable, prepared user password, prepared owner password, prepared try-password or 'unpreparable') tuples of encrypted files, i.e. passwords that the standard's preparation identifies count once")
+	r.Rule("a case is one file (version, user password, owner password, permissions, metadata mode, HumanReadable) written by the Writer and one password it is opened with by the Reader; in the length space a case is one (cipher, write piece size, password role, length, read buffer size) stream read or (cipher, role, length) string read; in the aliasing space a case is one (cipher, HumanReadable, value kind, string length, placement of the occurrences, password role) open with all objects read back; in the container space a case is one (cipher, HumanReadable, wide kind, fill, password role, width, outer wrapping, inner wrapping, write route) object read; in the typed-streams space a case is one (cipher, HumanReadable, document metadata mode, password role, write route, /Type, /Subtype, filter, length, referenced-from) stream read; in the options-reuse space a case is one (version, carry style, sequence, document index) document written from the reused options value, opened with every try; evaluations count writes, opens and, in the length, container and typed-streams spaces, stream, string and object reads; distinct = the length-space, aliasing-space, container-space, typed-streams-space and options-reuse-space cases, plus distinct (version, metadata mode, permissions, HumanReadable, prepared user password, prepared owner password, prepared try-password or 'unpreparable') tuples of encrypted files, i.e. passwords that the standard's preparation identifies count once")
 	r.Assume("password preparation, permission closure and expected open/fail decision come from ref/stdsec and this package (written from ISO 32000 and RFC 4013, self-tested at start); SASLprep: unassigned code points of Unicode 3.2 not checked, NFKC of the current Unicode version",
 		"passwords with a code point at an 'undefined' PDFDocEncoding position (here: U+00AD) are a grey zone for revisions <= 4: only the same string is required to open the file, a try with such a password must fail with any error",
 		"a missing owner password means the file has no password but the user password",
@@ -818,6 +859,77 @@ func Run(tier string) int {
 	r.Dim("long_password_rule", "ASCII[:bound-j] + character of w bytes, w=1..4, j=0..w bytes of it before the bound; tries: every such password, its ASCII prefix, prefix + a character differing first at byte k (k=1..w), password + one byte")
 	r.Dim("tries_per_file_long_password_space", longTries)
 	r.Dim("files_long_password_space", len(jobs)-nB)
+
+	// (g) typed streams: streams written by the caller whose dictionaries say
+	// /Type x /Subtype of an alphabet holding the types the library treats
+	// specially under encryption, x filter x length x referenced-from, and the
+	// library's own MetadataStream.Embed, next to the catalog's metadata stream
+	// in every metadata mode; per version x metadata mode (x HumanReadable
+	// thorough) (typed.go)
+	typedLens := typedLengthsFor(r.Thorough())
+	var tjobs []Case
+	for _, v := range versions {
+		vs, _ := v.ToString()
+		for _, human := range pwHuman {
+			for _, m := range metaModes {
+				tjobs = append(tjobs, Case{Space: "typed-streams", Version: vs, User: "a", Owner: "ab", Perm: int(pdf.PermCopy | pdf.PermForms), Meta: m, Human: human, TypedLens: typedLens})
+			}
+		}
+	}
+	r.Dim("typed_stream_rule", "one stream for every (/Type, /Subtype, filter, body length, referenced-from) written with Writer.OpenStream, plus MetadataStream values embedded through ResourceManager.Embed (Plaintext false/true) x referenced-from, in one file per (version, HumanReadable, document metadata mode); every stream (dictionary entries written, decoded body or XMP packet), every referring page and the document metadata must read back as written with the user and with the owner password")
+	r.Dim("typed_stream_types", typedTypes)
+	r.Dim("typed_stream_subtypes", typedSubtypes)
+	r.Dim("typed_stream_filters", typedFilters)
+	r.Dim("typed_stream_lengths", typedLens)
+	r.Dim("typed_stream_referenced_from", typedRefFrom)
+	r.Dim("typed_stream_write_routes", typedRoutes)
+	r.Dim("typed_streams_per_file", len(typedTypes)*len(typedSubtypes)*len(typedFilters)*len(typedLens)*len(typedRefFrom)+(len(typedRoutes)-1)*len(typedRefFrom))
+	r.Dim("files_typed_stream_space", len(tjobs))
+	r.Par(len(tjobs), func(k int) {
+		if r.Expired() || r.TooManyViolations() {
+			return
+		}
+		rn.one(tjobs[len(tjobs)-1-k]) // the AES files first
+	})
+
+	// (h) options reuse: ONE WriterOptions value used for k = 2..3 documents,
+	// every sequence of (user, owner) pairs over {"", a, ab}, the caller
+	// assigning only the fields that change (on the same value / on a struct
+	// copy; thorough: also all fields), per version (reuse.go)
+	reuseKs := []int{2, 3}
+	reuseStyles := reuseStylesFor(r.Thorough())
+	reusePatterns := reuseMetaPatternsFor(r.Thorough())
+	nSeq := 0
+	var rjobs []Case
+	for _, v := range versions {
+		vs, _ := v.ToString()
+		for _, style := range reuseStyles {
+			for _, pat := range reusePatterns {
+				seqs := reuseSequences(reuseKs, pat)
+				nSeq = len(seqs)
+				for _, seq := range seqs {
+					rjobs = append(rjobs, Case{Space: "options-reuse", Version: vs, Seq: seq, ReuseStyle: style, Tries: reuseTries})
+				}
+			}
+		}
+	}
+	r.Dim("options_reuse_rule", "one WriterOptions value used for k documents in a row; document i gets (user, owner) = step i of the sequence, permission set options_reuse_permissions_by_position[i] and metadata mode pattern[i]; between documents the caller assigns per 'carry style'; every document is opened with every try and judged exactly like a file of the password space from the values assigned for it (as if written with a fresh options value)")
+	r.Dim("options_reuse_passwords", reusePasswords)
+	r.Dim("options_reuse_documents_per_sequence", reuseKs)
+	r.Dim("options_reuse_sequences_per_version_style_pattern", nSeq)
+	r.Dim("options_reuse_carry_styles", reuseStyles)
+	r.Dim("options_reuse_metadata_patterns", reusePatterns)
+	r.Dim("options_reuse_permissions_by_position", []int{int(reusePerms[0]), int(reusePerms[1]), int(reusePerms[2])})
+	r.Dim("tries_per_document_options_reuse_space", len(reuseTries)+1)
+	r.Dim("sequences_options_reuse_space", len(rjobs))
+	r.Par(len(rjobs), func(k int) {
+		if r.Expired() || r.TooManyViolations() {
+			return
+		}
+		// version-major job list: stride so that revision 6 documents are spread over the workers
+		per := len(rjobs) / len(versions)
+		rn.one(rjobs[(k%len(versions))*per+k/len(versions)])
+	})
 
 	// (d) stream and string lengths around the cipher block size and around
 	// multiples of 512, per version x write chunking (x HumanReadable thorough)
@@ -941,6 +1053,8 @@ func Run(tier string) int {
 	r.Sample(jobs[nA-3])
 	r.Sample(jobs[nA+200])
 	r.Sample(jobs[len(jobs)-2])
+	r.Sample(tjobs[len(tjobs)-2])
+	r.Sample(rjobs[len(rjobs)-5])
 	lj := ljobs[len(ljobs)-2]
 	r.Sample(lj)
 	r.Sample(ajobs[len(ajobs)/2+5])
